@@ -40,7 +40,7 @@ def build(res, prop, go_tools=GO_TOOLS, models=MODELS):
     return tools
 
 
-def _pipe(cmd, fin, fout, timeout=900):
+def _pipe(cmd, fin, fout, timeout=3600):
     with open(fout, "wb") as out:
         i = open(fin, "rb") if fin else None
         try:
